@@ -72,6 +72,7 @@ def _shard(ctx, shard, nshards):
 
 
 def run(ctx):
+    native.setup()       # translate + compile once, before the shard processes fork
     ctx.shards(_shard, 16, 16)
     return RULE, 'exploration', [
         'exact comparison in the dyadic score class; tolerance 1e-4 relative for log-softmax / flattened scores',
